@@ -1205,13 +1205,6 @@ func xCause(src string, f bitfield.BitField8) string {
 			return c.name
 		}
 	}
-	// ... or silences the oracle: with the one cause defused the implementation rejects the source (the defused `[` of
-	// `#x[z\n .. #z{x]` turns `#z{x]` into a real comment, whose `{` is a parse error - counted by the check, not a failure)
-	for _, c := range single {
-		if s := neutralise(src, x0, c.d); s != src && level(s) == 1 {
-			return c.name
-		}
-	}
 	// several causes at once.  Candidates are the defusings that touch the text; every SET of them is tried, smallest sets
 	// first, and among sets of one size the one made of the most specific classes first (rank below: `#*..` is hashq, not "a
 	// quantifier somewhere in the comment").  The first set whose joint defusing restores agreement is the answer,
@@ -1249,30 +1242,50 @@ func xCause(src string, f bitfield.BitField8) string {
 		}
 		return subsets[i].weight < subsets[j].weight
 	})
-	// per size: first the sets that restore agreement, then the sets that silence the oracle (level 1 above)
-	for from := 0; from < len(subsets); {
-		to := from
-		for to < len(subsets) && subsets[to].size == subsets[from].size {
-			to++
+	build := func(in map[int]bool) defuse {
+		var d defuse
+		for k, c := range single {
+			if in[k] {
+				d.set += c.d.set
+				d.hashq, d.nlq, d.wsq, d.lone = d.hashq || c.d.hashq, d.nlq || c.d.nlq, d.wsq || c.d.wsq, d.lone || c.d.lone
+			}
 		}
-		for want := 2; want >= 1; want-- {
-			for _, ss := range subsets[from:to] {
-				var d defuse
-				var names []string
-				for b, k := range cand {
-					if ss.mask&(1<<b) != 0 {
-						c := single[k]
-						names = append(names, c.name)
-						d.set += c.d.set
-						d.hashq, d.nlq, d.wsq, d.lone = d.hashq || c.d.hashq, d.nlq || c.d.nlq, d.wsq || c.d.wsq, d.lone || c.d.lone
+		return d
+	}
+	for _, ss := range subsets {
+		in := map[int]bool{}
+		for b, k := range cand {
+			if ss.mask&(1<<b) != 0 {
+				in[k] = true
+			}
+		}
+		if !agrees(neutralise(src, x0, build(in))) {
+			continue
+		}
+		// a member of the set may be there only because defusing ANOTHER member brought text to life: the defused `[` of
+		// `#x[z\n .. #z{x]\n` turns `#z{x]` into a real comment whose `{` is a parse error, and only "quantifier" removes it.
+		// Such a member is dropped when, without it, the oracle raises no failure any more (level 1: the implementation
+		// rejects the defused source - a case the check counts but does not report); general classes are tried first.
+		for _, name := range []string{"quantifier", "anchor", "backslash", "bracket", "paren", "pipe", "wsq", "nlq", "lonehash", "hashq"} {
+			for k, c := range single {
+				if c.name == name && in[k] && len(in) > 1 {
+					delete(in, k)
+					if level(neutralise(src, x0, build(in))) == 0 {
+						in[k] = true
 					}
-				}
-				if level(neutralise(src, x0, d)) == want {
-					return "multi-" + strings.Join(names, "+")
 				}
 			}
 		}
-		from = to
+		var names []string
+		for k, c := range single {
+			if in[k] {
+				names = append(names, c.name)
+			}
+		}
+		if len(names) == 1 {
+			return names[0]
+		}
+		return "multi-" + strings.Join(names, "+")
 	}
 	return "other"
 }
